@@ -55,6 +55,7 @@ def main():
     tls = uc = sm = 0
     notes = []
     ambient = []
+    cfg_atoms = []
     detect_outside = 0
     # whole files that are test-only modules (`#[cfg(test)] mod x;`)
     test_files = set()
@@ -89,6 +90,28 @@ def main():
                 if nd and rel != os.path.join("src", "engine", "engine_default.rs"):
                     detect_outside += nd
                     notes.append(f"{rel}: {nd} CPU feature detections outside engine_default.rs")
+            # conditional compilation: every predicate atom of `#[cfg(…)]`, `#[cfg_attr(…)]`, `cfg!(…)` other than
+            # `test`, `target_arch = …` and the hooks' feature — what the crate IS must not depend on anything else
+            # (compile-time `target_feature`, `debug_assertions`, `target_os`, other cargo features …)
+            for m in re.finditer(r"cfg(?:_attr)?\s*!?\s*\(", text):
+                depth, j = 1, m.end()
+                while j < len(text) and depth > 0:
+                    depth += (text[j] == "(") - (text[j] == ")")
+                    j += 1
+                pred = text[m.end():j - 1]
+                if m.group(0).startswith("cfg_attr"):
+                    # only the condition (up to the first top-level comma)
+                    d2 = 0
+                    for k2, ch in enumerate(pred):
+                        d2 += (ch == "(") - (ch == ")")
+                        if ch == "," and d2 == 0:
+                            pred = pred[:k2]
+                            break
+                for atom in re.findall(r"[A-Za-z_][A-Za-z_0-9]*(?:\s*=\s*\"[^\"]*\")?", pred):
+                    a = re.sub(r"\s+", " ", atom.strip())
+                    if a in ("any", "all", "not", "test") or a.startswith("target_arch =") or a == 'feature = "verif-hooks"':
+                        continue
+                    cfg_atoms.append((rel, a))
             n = len(re.findall(r"\bthread_local\s*!", text))
             if n:
                 tls += n
@@ -129,6 +152,8 @@ def main():
     lines.append("/-- uses of APIs through which the process environment could reach a result (threads / CPU count, environment")
     lines.append("    variables, clocks, files, sockets, processes, random numbers, hash-order, addresses) outside test modules: -/")
     lines.append("def ambientUses : List String := [" + ", ".join('"' + f"{rel}: {' '.join(tok.split())}".replace('"', "'") + '"' for rel, tok in ambient) + "]")
+    lines.append("/-- conditional-compilation predicates other than `test`, `target_arch = …` and the hooks' feature -/")
+    lines.append("def otherCfgPredicates : List String := [" + ", ".join('"' + f"{rel}: {a}".replace('"', "'") + '"' for rel, a in cfg_atoms) + "]")
     lines.append("/-- run-time CPU feature detections outside `src/engine/engine_default.rs` -/")
     lines.append(f"def featureDetectionsOutsideDefaultEngine : Nat := {detect_outside}")
     lines.append("/-- every `#[target_feature(enable = F)]` function of the SIMD engines: (ISA of the engine whose file it is in,")
